@@ -2,6 +2,7 @@ SPECIFICATION GSpec
 CONSTANTS NB = 8
           NID = 8
           Wide = TRUE
+          Inners = {"plain"}
           MaxBatch = 0
           D = 2
           E = 2
